@@ -2,7 +2,7 @@
    Conventions: wf m = (length (buf m) = rows m * cols m); ent m i j = nth (i * cols m + j) (buf m) zero;
    mvprod n X v r = sum_n n (fun k => X r k * v k), so  "M x = b"  reads
    forall i < rows M, mvprod (rows M) (ent M) (fun k => nth k x zero) i = nth i b zero. *)
-From Coq Require Import List Arith ZArith.
+From Coq Require Import List Arith ZArith Lia.
 From OV Require Import Base.Panic Base.Arith Base.Flat Model.Vector Model.Matrix Model.Solve Inst.QcInst
   Proofs.Matrix Proofs.SolveBase Proofs.SolveBack Proofs.SolveGauss Proofs.Solve.
 Import ListNotations.
@@ -25,12 +25,49 @@ Definition M3 : matrix AQ := @mkM AQ [q 0 1; q 2 1; q 2 1;  q 1 1; q 1 1; q 1 1;
 Definition b3 : list AQ := [q 4 1; q 3 1; q 7 1].
 Example solve_basic_sound_nonvacuous :
   wf M3 /\ rows M3 = cols M3 /\ length b3 = rows M3 /\
-  (exists x, solve_basic M3 b3 = Ok x) /\
+  is_ok (solve_basic M3 b3) = true /\
   fl_res (fl_list flat_q) (solve_basic M3 b3) = [0; 3;  2; 1; 1;  2; 1; 1;  2; 1; 1]%Z /\
   max_abs_in_column M3 0 0 = Ok 2 /\
-  (exists s, gauss_body 0 (M3, b3) = Ok s /\ max_abs_in_column (fst s) 1 1 = Ok 2).
+  (let* s := gauss_body 0 (M3, b3) in max_abs_in_column (fst s) 1 1) = Ok 2.
 Proof.
-  repeat split; try reflexivity.
-  - eexists. vm_compute. reflexivity.
-  - eexists. split; vm_compute; reflexivity.
+  split; [reflexivity|]. split; [reflexivity|]. split; [reflexivity|].
+  split; [vm_compute; reflexivity|].
+  split; [vm_compute; reflexivity|]. split; [vm_compute; reflexivity|].
+  vm_compute; reflexivity.
+Qed.
+
+(* A left inverse makes solutions unique (used to assemble solvers_agree from solve_basic_sound and
+   package c02's solve_lu_sound).  left_inverse n N E: forall i j < n, sum_k N i k * E k j = delta i j. *)
+Theorem solutions_unique : forall (A : Arith), FieldLaws A -> forall (M : matrix A) (b x y : list A),
+  (exists N : nat -> nat -> A, left_inverse (rows M) N (ent M)) ->
+  length x = rows M -> length y = rows M ->
+  (forall i, i < rows M -> mvprod (rows M) (ent M) (fun k => nth k x zero) i = nth i b zero) ->
+  (forall i, i < rows M -> mvprod (rows M) (ent M) (fun k => nth k y zero) i = nth i b zero) ->
+  x = y.
+Proof. intros A FL M b x y. exact (solutions_unique_lemma FL M b x y). Qed.
+Check solutions_unique : forall (A : Arith), FieldLaws A -> forall (M : matrix A) (b x y : list A),
+  (exists N : nat -> nat -> A, left_inverse (rows M) N (ent M)) ->
+  length x = rows M -> length y = rows M ->
+  (forall i, i < rows M -> mvprod (rows M) (ent M) (fun k => nth k x zero) i = nth i b zero) ->
+  (forall i, i < rows M -> mvprod (rows M) (ent M) (fun k => nth k y zero) i = nth i b zero) ->
+  x = y.
+Print Assumptions solutions_unique.
+
+(* non-vacuity: M3 has a left inverse (its inverse, det M3 = 6), and [1;1;1] solves M3 x = b3 *)
+Definition N3 : matrix AQ := @mkM AQ [q (-1) 2; q 1 1; q 0 1;  q 1 6; q (-2) 3; q 1 3;  q 1 3; q 2 3; q (-1) 3] 3 3.
+Example M3_left_inverse : left_inverse (rows M3) (ent N3) (ent M3).
+Proof.
+  intros i j Hi Hj. change (rows M3) with 3 in *.
+  destruct i as [|[|[|i]]]; try lia; destruct j as [|[|[|j]]]; try lia;
+    apply Qcanon.Qc_is_canon; vm_compute; reflexivity.
+Qed.
+Definition x3 : list AQ := [q 1 1; q 1 1; q 1 1].
+Example solutions_unique_nonvacuous :
+  (exists N : nat -> nat -> AQ, left_inverse (rows M3) N (ent M3)) /\
+  length x3 = rows M3 /\
+  (forall i, i < rows M3 -> mvprod (rows M3) (ent M3) (fun k => nth k x3 zero) i = nth i b3 zero).
+Proof.
+  split; [exists (ent N3); exact M3_left_inverse|]. split; [reflexivity|].
+  intros i Hi. change (rows M3) with 3 in *.
+  destruct i as [|[|[|i]]]; try lia; apply Qcanon.Qc_is_canon; vm_compute; reflexivity.
 Qed.
